@@ -336,3 +336,47 @@ Theorem C10_chromosome_numbers_need_distinct_map_names :
   ~ Proofs.ChromosomeNumbers.chromosome_numbers_statement_original.
 Proof. exact Proofs.ChromosomeNumbers.chromosome_numbers_original_refuted. Qed.
 Print Assumptions C10_chromosome_numbers_need_distinct_map_names.
+
+(* TWO HAPLOTYPES, END TO END through [remap] (Proofs/CompletionTwoHaps*.v): on
+   every well-paired painted two-haplotype tiling map (the hypotheses of
+   C02_two_haplotype_maps_complete) the run completes and there is one pair of
+   rank-1 output scaffolds per pair of Pretext scaffolds -- the first in an
+   assembly keyed h1, the second in an assembly keyed h2, each made from its own
+   Pretext scaffold -- and the pair at rank kk by non-increasing FIRST-haplotype
+   sequence length (ties in map order) is named <prefix><kk+1> in BOTH
+   haplotypes: homologues share their number, the first haplotype decides it. *)
+From Tola Require Proofs.CompletionTwoHapsNames.
+From Tola Require Import Py.Sort.
+Theorem C10_two_haplotype_names_end_to_end :
+  forall g prefix n d input pretext h1 h2 (hapf : str -> str) k,
+  0 < d -> d <= n ->
+  Forall Proofs.Completion.input_ok input -> NoDup (map fst input) ->
+  NoDup (map key_of (Model.RemapSpec.in_frags input)) ->
+  Forall (fun f => f_tags f = []) (Model.RemapSpec.in_frags input) ->
+  Forall (fun f => f_strand f = 1 \/ f_strand f = -1) (Model.RemapSpec.in_frags input) ->
+  Forall (fun p => exists b t, snd p = RF b :: t) pretext ->
+  Forall (fun b => (f_strand b = 1 \/ f_strand b = -1) /\ In (f_name b) (map fst input))
+         (Proofs.CoreKept.baits_of pretext) ->
+  Forall (Proofs.Completion.scaffold_tiled n d (Proofs.CoreKept.baits_of pretext)) input ->
+  lower h1 <> lower h2 ->
+  Proofs.CompletionTagged.is_hap_tag h1 = true -> Proofs.CompletionTagged.is_hap_tag h2 = true ->
+  Proofs.CompletionTwoHaps.hap_baits hapf pretext ->
+  map hapf (map fst pretext) = Proofs.CompletionTwoHapsGlue.alternating h1 h2 (S k) ->
+  NoDup (map fst pretext) -> Forall (fun p => fst p <> []) pretext ->
+  Forall (fun p => exists b src x, In b (frags_of (snd p)) /\ In (f_name b, src) (number_input input 0)
+                     /\ Proofs.CoreKept.in_core (error_length (n, d)) b x /\ Proofs.CoreKept.contig_base src x) pretext ->
+  exists o (homs : list (scaffold * scaffold)),
+    remap repaired g prefix (n, d) input pretext = Ok o
+    /\ length homs = S k
+    /\ (forall j sc1 sc2, nth_error homs j = Some (sc1, sc2) ->
+          sc_orig sc1 = nth_error (map fst pretext) (2 * j)
+          /\ sc_orig sc2 = nth_error (map fst pretext) (2 * j + 1)
+          /\ sc_rank sc1 = 1 /\ sc_rank sc2 = 1
+          /\ (exists a, In a (out_asms o) /\ oa_key a = Some h1 /\ In sc1 (oa_scaffolds a))
+          /\ (exists a, In a (out_asms o) /\ oa_key a = Some h2 /\ In sc2 (oa_scaffolds a)))
+    /\ (forall kk sc1 sc2,
+          nth_error (sort_by_Z_desc (fun p => frags_length (sc_rows (fst p))) homs) kk = Some (sc1, sc2) ->
+          sc_name sc1 = prefix ++ Py.Dec.str_of_Z (Z.of_nat kk + 1)
+          /\ sc_name sc2 = prefix ++ Py.Dec.str_of_Z (Z.of_nat kk + 1)).
+Proof. exact Proofs.CompletionTwoHapsNames.two_haplotype_maps_names. Qed.
+Print Assumptions C10_two_haplotype_names_end_to_end.
